@@ -355,6 +355,12 @@ def run(ctx) -> None:
                 succ = [m for (m, l2) in tn.succ if l2 == lab]
                 if rt.id in c2.reach(succ, blocked=for_nodes):
                     ok3 = False
+                # ... nor is the subject accepted by going on to the next one: on that side the loop head is not reachable either (a second
+                # condition conjoined to the flag - 'and not alive' - lets a subject through that is being finished and still RUNNING,
+                # which is exactly the state of a never-launched component between _fake_finish_with_state and its final state; seed C01-15)
+                r_all = c2.reach(succ, ignore_labels=("exc", "except", "raise", "uncaught"))
+                if any(f.id in r_all for f in for_nodes):
+                    ok3 = False
         ctx.ob("C01.R4-deps-satisfied", rt.ast, ok3,
                "a subject whose finish() was called does not satisfy the dependency until it is done" if ok3 else
                "_input_dependencies_satisfied counts a subject as launched as soon as it is in comp_staged_in, also when finish() was already "
